@@ -34,7 +34,7 @@ def _work(history):
 
 def get_ref(refs, key):
     if key not in refs:
-        refs[key] = histmc.reference_answer_held(key) if "|" in key else histmc.reference_answer(key, 0)
+        refs[key] = histmc.reference_answer_held(key) if ("|" in key or key.startswith("@")) else histmc.reference_answer(key, 0)
     return refs[key]
 
 
@@ -118,7 +118,7 @@ def check(ctx):
 
 
 def _shape(h):
-    return tuple((k, n) for k, n in h if k not in ("call", "hcall"))[-2:]
+    return tuple((k, n) for k, n in h if k not in ("call", "hcall", "ocall"))[-2:]
 
 
 def replay(body):
